@@ -61,3 +61,35 @@ func VerifAccApply(acc *ElementAccumulator, updated, added []VerifLeaf) *VerifAp
 func VerifAccRevert(acc *ElementAccumulator, updated, added []VerifLeaf) *VerifRevertUpdate {
 	return &VerifRevertUpdate{acc.revertBlock(verifLeaves(updated), verifLeaves(added))}
 }
+
+func verifFromLeaf(l elementLeaf) VerifLeaf { return VerifLeaf{l.StateElement, l.elementHash, l.spent} }
+
+// VerifSiacoinLeaf exposes siacoinLeaf.
+func VerifSiacoinLeaf(e *types.SiacoinElement, spent bool) VerifLeaf {
+	return verifFromLeaf(siacoinLeaf(e, spent))
+}
+
+// VerifSiafundLeaf exposes siafundLeaf.
+func VerifSiafundLeaf(e *types.SiafundElement, spent bool) VerifLeaf {
+	return verifFromLeaf(siafundLeaf(e, spent))
+}
+
+// VerifFileContractLeaf exposes fileContractLeaf.
+func VerifFileContractLeaf(e *types.FileContractElement, spent bool) VerifLeaf {
+	return verifFromLeaf(fileContractLeaf(e, nil, spent))
+}
+
+// VerifV2FileContractLeaf exposes v2FileContractLeaf.
+func VerifV2FileContractLeaf(e *types.V2FileContractElement, spent bool) VerifLeaf {
+	return verifFromLeaf(v2FileContractLeaf(e, nil, spent))
+}
+
+// VerifChainIndexLeaf exposes chainIndexLeaf.
+func VerifChainIndexLeaf(e *types.ChainIndexElement) VerifLeaf {
+	return verifFromLeaf(chainIndexLeaf(e))
+}
+
+// VerifAttestationLeaf exposes attestationLeaf.
+func VerifAttestationLeaf(e *types.AttestationElement) VerifLeaf {
+	return verifFromLeaf(attestationLeaf(e))
+}
